@@ -157,3 +157,23 @@ CHECKS["C14"] = dict(
     parts=[P("sequential", "^TestC14Sequential$", shards=(4, 16)), P("concurrent", "^TestC14Concurrent$", shards=(4, 16)), P("concurrent-race", "^TestC14Concurrent$", race=True, shards=(2, 8))],
     floor=500,
 )
+
+CHECKS["C16"] = dict(
+    level="exploration",
+    technique="exhaustive small-scope request generation against the real sign-subtree handler with an online oracle: every returned line is verified as a subtree cosignature (public verifier) and admitted only for a valid in-range subtree with the reference subtree hash and a key whose valid cosignature is on the presented checkpoint; valid requests must get exactly the expected lines",
+    text="All (start, end) pairs 0 <= start < end <= size+2 for tree sizes 1..33 (thorough 1..80 plus sampled sizes up to 3000), each once with a productive signer set and once with a seeded deviation: signer sets on the presented checkpoint {none, witness ML-DSA, mirror, both, Ed25519 only, foreign witness, forged witness line with the right name and key hash, valid cosignature of another checkpoint pasted in, witness+Ed25519+foreign}, hash {correct, other subtree, flipped}, proof {correct, flipped, truncated, extended}, malformed bodies. Signature lines imply: status 200, valid subtree with end <= size, supplied hash = reference hash of the ground-truth leaves, proof equal to the correct proof, each line verifies with CosignatureVerifier.VerifySubtree under the witness ML-DSA or mirror key and that key's cosignature on the checkpoint verifies independently; no Ed25519 line; no signature text in error responses. Valid requests must be answered with exactly the expected set of lines.",
+    note="Subtree proofs are generated with torchwood.ProveSubtree (generator side); the oracle uses the reference Merkle tree and torchwood's public subtree verifier.",
+    design_ref="DESIGN.md section 3, C16",
+    parts=[P("subtrees", "^TestC16Subtrees$", shards=(4, 16))],
+    floor=1000,
+)
+
+CHECKS["C15"] = dict(
+    level="exploration",
+    technique="model-based runtime monitoring of the real witness+mirror: a serving-invariant monitor fires on every lock-store write under the mirror-checkpoint key (while it is in flight) and on every 200 answer, auditing public storage byte-exactly against the ground-truth log; bounded-progress check with a well-behaved client; request interleaving through the two existing add-entries hooks (behind the verif tag)",
+    text="Seeded histories of 20-60 operations: add-checkpoint to growing pending sizes; add-entries with start in {next entry, mirror size, next-d, next+d, mid-tile, beyond, 0}, end in {pending, mirror size, an older pending size with / without its ticket, forged, bit-flipped and other-origin tickets, a size never cosigned}, bodies {canonical, first k packages, cut at an arbitrary byte, gzip, wrong entry, entries of a fork, proof flipped / missing / extra hash, 64 hashes, empty}; requests interleaved inside another upload through the before-package / before-commit hooks; single lock or storage faults (applied or not) on chosen call classes; restarts; a well-behaved client loop. On every mirror-checkpoint write and every 200: the note carries the log's signature and a verifying mirror cosignature and no witness line, size N is monotone and <= the pending checkpoint in the lock store, every full hash tile and entry bundle of the size-N tree exists, each right-edge partial tile or the full tile extending it exists, bundle contents equal the log's first N entries and the reference root equals the note's root. Public checkpoint objects must already be recorded. After faults stop / after a restart the client must converge within 5 + N/256 requests.",
+    note="'Uploads can resume' is restated as bounded progress of a client that only follows mirror-info answers. The upload frontier (next entry) is learnt from mirror-info answers, not from internal state. Trusted: harness stores, reference tlog-tiles renderer.",
+    design_ref="DESIGN.md section 3, C15",
+    parts=[P("mirror", "^TestC15Mirror$", shards=(8, 16)), P("mirror-race", "^TestC15Mirror$", race=True, shards=(4, 8), tiers=("thorough",))],
+    floor=300,
+)
